@@ -4,7 +4,7 @@ META = {
     'property_id': 'C08', 'lean_module': 'Placement.Props.C08', 'category': 'proof',
     'text': 'Lean 4 theorems: referential integrity RI is an invariant of every request of the handler model (induction over '
             'histories, all states), deletions of entities in use are refused with the state unchanged; the model is tied '
-            'to the code by differential histories; a join monitor evaluates RI on the real tables after every request.',
+            'to the code by differential histories; a join monitor evaluates RI on the real tables after every request; beyond sequences, every interleaving of deletion-versus-use request pairs on the real application (final-state joins, serial-order oracle, Prog.runSched for the provider requests).',
     'level_note': 'trusted: Lean kernel; correspondence sampled.',
     'technique': 'Lean 4 proof (invariant by induction over requests) + model/implementation correspondence',
     'design_ref': 'DESIGN.md section 5, C08',
